@@ -36,6 +36,28 @@ def same(a, b):
     return e2e.canon(a) == e2e.canon(b)
 
 
+def async_call(peer, op, vbs, as_report):
+    """one get / get_many through the real asyncio client against a scripted reply"""
+    from props import c18
+
+    def plan(dg):
+        req = peer.decode(dg)
+        if req["pdu_type"] == 0 and not req["varbinds"]:
+            return [peer.state.report(req["request_id"], req["msg_id"], auth=bool(peer.state.auth_alg))]
+        return [peer.response(req, vbs, pdu_tag=8 if as_report else 2)]
+
+    async def main(port):
+        from gufo.snmp.async_client import SnmpSession
+        async with SnmpSession("127.0.0.1", port=port, timeout=0.3, **c18.session_kwargs(peer)) as s:
+            if op == "get":
+                return await s.get("1.3.6.1.2.1.1.5.0")
+            return await s.get_many(["1.3.6.1.2.1.1.5.0", "1.3.6.1.2.1.1.6.0"])
+    r, _ = e2e.run_async(main, plan)
+    if r[0] == "exc" and (r[1].startswith("PySnmp") or r[1] == "PyNoSuchInstance"):
+        return ("exc", r[1][2:], r[2])
+    return r
+
+
 def run(chk, model_ok=True):
     rng = random.Random(chk.seed)
     quick = chk.tier == "quick"
@@ -70,12 +92,14 @@ def run(chk, model_ok=True):
             arg = "1.3.6.1.2.1.1.5.0" if op == "get" else ["1.3.6.1.2.1.1.5.0", "1.3.6.1.2.1.1.6.0"]
 
             rep_rid = rng.choice(["same", 0, rng.getrandbits(31)])
+            # error-status / error-index do not change what the varbinds denote (the library ignores them)
+            es, ei = rng.choice([(0, 0), (0, 0), (0, 0), (2, 1), (5, 0), (1, 2), (17, 300)])
 
             def replies(req):
                 if as_report:
                     # Reports are accepted whatever request-id they carry (agents send 0 on unknown user / bad digest)
                     return [peer.response(req, vbs, pdu_tag=8, request_id=None if rep_rid == "same" else rep_rid)]
-                return [peer.response(req, vbs)]
+                return [peer.response(req, vbs, error_status=es, error_index=ei)]
             r = conv.exchange(op, arg, replies)
             n_e2e += 1
             if as_report:
@@ -105,6 +129,47 @@ def run(chk, model_ok=True):
                 if r[0] != "ok" or not same(r[1], want[1]):
                     fail(f"{peer.label} {op}: expected {e2e.canon(want[1])[:100]}, got {(e2e.canon(r[1]) if r[0] == 'ok' else repr(r))[:100]} "
                          f"for reply {pdu_hex[:120]}", f"topy {op} {pdu_hex}")
+    # a Report that belongs to another exchange (other msgID) is not an answer: it must be skipped, not raised
+    for peer in [p_ for p_ in peers if p_.kind == "v3"][:4]:
+        conv = e2e.Conv(peer, env)
+        for it in range(6 if quick else 120):
+            op = rng.choice(["get", "getmany"])
+            arg = "1.3.6.1.2.1.1.5.0" if op == "get" else ["1.3.6.1.2.1.1.5.0"]
+            follow = rng.random() < 0.5
+
+            def replies(req):
+                stale = peer.response(req, [], pdu_tag=8, request_id=rng.choice([0, req["request_id"]]),
+                                      msg_id=(req["msg_id"] + rng.choice([1, -1, 2 ** 30])) % 2 ** 31)
+                out = [stale]
+                if follow:
+                    out.append(peer.response(req, [ber.varbind((1, 3, 6, 1, 2, 1, 1, 5, 0), ber.INT(4711))]))
+                return out
+            r = conv.exchange(op, arg, replies)
+            n_e2e += 1
+            want = ("exc", "BlockingIOError") if not follow else (("ok", 4711) if op == "get" else ("ok", {"1.3.6.1.2.1.1.5.0": 4711}))
+            if r[:2] != want:
+                fail(f"{peer.label} {op}: a Report with a foreign msgID {'followed by the reply ' if follow else ''}gave {r!r:.100}, expected {want!r:.80}",
+                     f"# stale report {peer.label} {op} follow={follow}")
+    # the async client maps the same way (it has its own receive loop around the socket)
+    n_async = 0
+    for peer in [e2e.Peer("v2c"), e2e.Peer("v3", auth=1, priv=1, auth_kt="localized", priv_kt="localized")]:
+        for it in range(10 if quick else 250):
+            op = rng.choice(["get", "getmany"])
+            k = rng.choice([0, 1, 1, 2, 3])
+            names = [values.gen_arcs(rng) for _ in range(k)]
+            tl = [values.gen_value(rng, allow_real=False) for _ in range(k)]
+            vbs = [ber.varbind(n, t[0]) for n, t in zip(names, tl)]
+            vals = [t[1] for t in tl]
+            as_report = peer.kind == "v3" and rng.random() < 0.15
+            want = ("exc", "SnmpAuthError") if as_report else (expected_get(vals) if op == "get" else expected_get_many(names, vals))
+            r = async_call(peer, op, vbs, as_report)
+            n_async += 1
+            okk = (r[0] == "exc" and want[0] == "exc" and r[1] == want[1]) or (r[0] == "ok" and want[0] == "ok" and same(r[1], want[1]))
+            if not okk:
+                fail(f"async {peer.label} {op}: expected {(e2e.canon(want[1]) if want[0] == 'ok' else want[1])[:90]}, got "
+                     f"{(e2e.canon(r[1]) if r[0] == 'ok' else repr(r))[:90]} for reply {ber.pdu(8 if as_report else 2, 1, 0, 0, vbs).hex()[:100]}",
+                     f"topy {op} {ber.pdu(8 if as_report else 2, 1, 0, 0, vbs).hex()}")
+    n_e2e += n_async
     # the sync session: BlockingIOError -> TimeoutError, values passed through
     from gufo.snmp.sync_client import SnmpSession
     from gufo.snmp import SnmpVersion
